@@ -66,8 +66,11 @@ Directed(St) ==
        WithFields("UploadPart", [op |-> "UploadPart", b |-> u.b, k |-> u.k, u |-> u.uid,
                                  n |-> IF Len(u.parts) < MaxParts THEN Len(u.parts) + 1 ELSE MaxParts, blob |-> R(Blobs)])
   ELSE IF CurObjs(St) # {} /\ "AppendObject" \in Ops
-  THEN LET o == R(CurObjs(St)) IN
-       WithFields("AppendObject", [op |-> "AppendObject", b |-> o[1], k |-> o[2], blob |-> R(Blobs), off |-> "none"])
+  THEN \* to an existing object (one more part) or to any key of its bucket (a fresh key gives a
+       \* one-part object with a composite ETag)
+       LET o == R(CurObjs(St))
+           k == IF R(1..2) = 1 THEN o[2] ELSE R(Keys) IN
+       WithFields("AppendObject", [op |-> "AppendObject", b |-> o[1], k |-> k, blob |-> R(Blobs), off |-> "none"])
   ELSE RandCall(RW(IOpWSel), St)
 \* up to three draws: prefer a call that succeeds in the model (failing calls still occur)
 Succeeds(c) == Apply(S, c).r.err = ""
